@@ -139,3 +139,18 @@ for _r in ("statistics of an undefined or non-FSR signal", "statistics with a no
            "statistics outside the signal succeeded"):
     REASON_PROP[_r] = "C10"
 REASON_PROP["copy of a properly closed file failed"] = "C17"
+REASON_PROP["reading a properly closed file modified it"] = "C19"
+C03_REASONS = ["a stop between two complete writes left a file that does not open", "more signals than were defined",
+               "a signal that was never defined appeared", "length query failed on a file that opened", "more samples than were submitted",
+               "samples inside the reported length cannot be read", "first sample id differs from the one submitted",
+               "samples differ from the submitted prefix", "more than the block in flight was lost",
+               "a read call failed on a file that opened after a stop between two complete writes",
+               "annotations are not an in-order selection of unaltered submitted ones",
+               "UTC entries are not an in-order selection of unaltered submitted ones",
+               "user data are not an in-order selection of unaltered submitted items"]
+C19_REASONS = ["a file that opened once does not open again", "opening the file again modified it",
+               "a second open shows different content than the first", "after the repairing open the file is not a well-formed closed file"]
+for _r in C03_REASONS:
+    REASON_PROP[_r] = "C03"
+for _r in C19_REASONS:
+    REASON_PROP[_r] = "C19"
